@@ -19,7 +19,7 @@ use std::io::Cursor;
 use oxidd::bcdd::BCDDFunction;
 use oxidd::bdd::BDDFunction;
 use oxidd::zbdd::ZBDDFunction;
-use oxidd::{BooleanFunction, Function, HasLevel, Manager, ManagerRef};
+use oxidd::{HasLevel, Manager, ManagerRef};
 use oxidd_core::function::{ETagOfFunc, INodeOfFunc, TermOfFunc};
 use oxidd_dump::dddmp::{self, DDDMPVersion, DumpHeader, ExportSettings};
 use oxidd_dump::{AsciiDisplay, ParseTagged};
@@ -248,11 +248,42 @@ fn header_json(h: &DumpHeader) -> Value {
     Value::Object(o)
 }
 
+/// outcome class of a call: ok | err | panic | precond | skipped | setup_panic
+fn res_c(c: &str) -> Value {
+    json!({ "c": c })
+}
+fn is_ok(v: &Value) -> bool {
+    v["c"] == json!("ok")
+}
+
+/// the first line of a panic message with numbers blanked out (becomes part
+/// of the finding signature)
+fn panic_class(msg: &str) -> String {
+    let first = msg.lines().next().unwrap_or("");
+    let mut out = String::new();
+    let mut in_num = false;
+    for ch in first.chars() {
+        if ch.is_ascii_digit() {
+            if !in_num {
+                out.push('#');
+            }
+            in_num = true;
+        } else {
+            in_num = false;
+            out.push(if ch.is_ascii_alphanumeric() || "#.:()|!=<>".contains(ch) { ch } else { '_' });
+        }
+        if out.len() >= 48 {
+            break;
+        }
+    }
+    out
+}
+
 fn io_res<T>(r: &Result<std::io::Result<T>, String>) -> Value {
     match r {
-        Ok(Ok(_)) => json!("ok"),
-        Ok(Err(e)) => json!({"err": format!("{:?}", e.kind()), "msg": e.to_string()}),
-        Err(p) => json!({ "panic": p }),
+        Ok(Ok(_)) => res_c("ok"),
+        Ok(Err(e)) => json!({"c": "err", "kind": format!("{:?}", e.kind()), "msg": e.to_string()}),
+        Err(p) => json!({"c": "panic", "msg": p, "pc": panic_class(p)}),
     }
 }
 
@@ -354,7 +385,7 @@ where
     ev["h"] = header_json(&header);
     let nv = header.num_vars();
     if nv > FRESH_MAX_VARS {
-        ev["res"] = json!("skipped");
+        ev["res"] = res_c("skipped");
         return ev;
     }
     let sv: Vec<u32> = header.support_var_order().to_vec();
@@ -380,7 +411,7 @@ where
     // the support variables must be ordered by level
     let ro = mref.with_manager_exclusive(|m| catch(|| F::set_var_order(m, &sv)));
     if let Err(p) = ro {
-        ev["res"] = json!({"setup_panic": p});
+        ev["res"] = json!({"c": "setup_panic", "msg": p});
         return ev;
     }
     let (l2v, v2l) = mref.with_manager_shared(|m| F::order(m));
@@ -392,7 +423,7 @@ where
             .all(|w| v2l[w[0] as usize] < v2l[w[1] as usize]);
     if !sorted || sv.len() != header.num_support_vars() as usize {
         // the precondition of `import` cannot be established
-        ev["res"] = json!("precond");
+        ev["res"] = res_c("precond");
         return ev;
     }
     let base = mref.with_manager_shared(|m| {
@@ -508,7 +539,7 @@ where
     ev["orig"] = json!(orig);
     let mut same_ok = false;
     if !sorted {
-        ev["res"] = json!("precond");
+        ev["res"] = res_c("precond");
     } else {
         let r = catch(|| {
             s.mref.with_manager_shared(|m| {
@@ -538,7 +569,7 @@ where
     // fresh manager
     let mut ev = fresh_import::<F>(&bytes, false);
     ev["ev"] = json!("import_fresh");
-    let fresh_ok = ev["res"] == json!("ok");
+    let fresh_ok = is_ok(&ev["res"]);
     s.out.emit(ev);
     if same_ok && fresh_ok && header.num_nodes() >= 2 {
         stats.nontrivial += 1;
@@ -697,7 +728,8 @@ where
         let n = if c % 17 == 16 { 0 } else { 1 + rng.below(10) } as u32;
         let mut s: Session<F> = Session::new_tagged(&mut out, 1 << 14, 256, 1, "rtn");
         s.add_vars(n);
-        let names = var_names(&mut rng, n as usize, rng.below(8));
+        let scheme = rng.below(8);
+        let names = var_names(&mut rng, n as usize, scheme);
         set_names(&mut s, &names);
         let before = !F::REORDER_LIVE_OK || rng.chance(1, 2);
         let ord = rng.perm(n as usize);
@@ -974,8 +1006,13 @@ where
                     ev["mut"] = desc.clone();
                     ev["len"] = json!(bytes.len());
                     stats.mutations += 1;
-                    if ev["res"] == json!("ok") {
+                    if is_ok(&ev["res"]) {
                         stats.accepted_mut += 1;
+                    }
+                    // exact reproduction of the notable cases
+                    let c = ev["res"]["c"].as_str().unwrap_or("");
+                    if c == "ok" || c.contains("panic") || ev["hres"]["c"] == json!("panic") {
+                        ev["hex"] = json!(bytes.iter().map(|b| format!("{b:02x}")).collect::<String>());
                     }
                     s.out.emit(ev);
                 }
